@@ -98,7 +98,10 @@ class SimEvent:
         self.flag = True
         for tok in self.waiters:
             tok[0] = True
-        del self.waiters[:]
+        if self.waiters:
+            del self.waiters[:]
+            # woken waiters may run before the setter continues
+            self.s.switch("ev-set-post", self.label)
 
     def clear(self):
         self.s.switch("ev-clear", self.label)
@@ -146,6 +149,8 @@ class SimQueue:
         self.items.append(item)
         if self.putlog is not None:
             self.putlog.append((self.s.next_seq(), item))
+        # a put wakes a blocked getter, which may well run before the putter continues
+        self.s.switch("q-put-post", self.label)
 
     put_nowait = put
 
